@@ -275,6 +275,25 @@ Theorem C07_oracle_crash_sched : forall m cp p0 hc0 c0 pre limits progs sched st
 Proof. exact oracle_crash_sched. Qed.
 Print Assumptions C07_oracle_crash_sched.
 
+(* non-vacuity: producer 1 is stopped for ever after its header store, producer 2 and the consumer finish *)
+Definition exc_progs : list (list wreq) := [[(1, payload 0 8)]; [(2, payload 1 3); (3, payload 2 0)]].
+Definition exc_obs := run_conc Debug (init 64 40 40 0) [OpWrite 14 (payload 99 8)] [2; 2147483647] exc_progs
+                        (unrle [(1, 400); (2, 400); (0, 400)]) [-1; 4; -1] [OpDump; OpUnblock; OpDump; OpRead 2147483647; OpDump].
+Example C07_oracle_crash_sched_example :
+  seq_domain 64 40 40 0 [OpWrite 14 (payload 99 8)] /\ Forall (Forall wreq_ok) exc_progs /\ NoDup (map fst (concat exc_progs)) /\
+  (exists l rest, snd (fst exc_obs) = TCons l :: rest) /\
+  nth 1 (snd (fst exc_obs)) TPanicked = TStop /\
+  holds_crash 64 40 [OpWrite 14 (payload 99 8)] exc_progs [OpDump; OpUnblock; OpDump; OpRead 2147483647; OpDump] exc_obs = true.
+Proof. split; [| split; [| split; [| split; [| split]]]].
+  - unfold seq_domain. split; [exists 6; split; [lia | reflexivity] |].
+    repeat split; try (vm_compute; congruence); try reflexivity. constructor; [right; reflexivity | constructor].
+  - repeat (constructor; try (right; reflexivity)).
+  - vm_compute. repeat constructor; cbn; intuition discriminate.
+  - eexists. eexists. vm_compute. reflexivity.
+  - vm_compute. reflexivity.
+  - vm_compute. reflexivity.
+Qed.
+
 (* part (1) of the trace oracle of the uconc cases (Oracle/C07UOracle.v, `confirm_ok`: the padding store is justified by
    what that unblock() call itself read) is true of the model's unblock in every interleaving: `reads_inv ci u rs` relates the
    program counter of the call to the (offset, value) pairs of its length-word reads so far (newest first); it is preserved by
